@@ -1590,7 +1590,7 @@ def r155_scan_globals(pe, rep):
 
 def r155(pe, rep):
     rep.rule('R15.5', 'file-scope objects: is_definition / is_static / is_tls / is_tentative follow C11 6.9.2 from (storage class, _Thread_local, initialiser); '
-             'scan_globals removes exactly the tentative definitions made redundant by another definition, keeps one of several tentative ones, keeps order', floor=30)
+             'scan_globals removes exactly the tentative definitions made redundant by another definition, keeps one of several tentative ones, keeps order, leaves the flags of every object as declared', floor=31)
 
     def part(fns, f):
         try:
@@ -1606,8 +1606,10 @@ def r155(pe, rep):
 # R15.6 static locals and string literals are anonymous static globals
 # =============================================================================================
 def r156(pe, rep):
-    rep.rule('R15.6', 'string literals and block-scope static objects are created by new_anon_gvar: a fresh assembler-local name (.L..n) per object, is_static, '
-             'is_definition, on `globals` (not `locals`); the block-scope identifier is bound to that object; _Thread_local and the initialiser are honoured', floor=10)
+    rep.rule('R15.6', 'string literals, block-scope static objects and static compound literals are created by new_anon_gvar: a fresh assembler-local name (.L..n) per object, is_static, '
+             'is_definition, on `globals` (not `locals`); the block-scope identifier is bound to that object; _Thread_local and the initialiser are honoured: the flag state the parser '
+             'builds is one emit_data places in the section the declaration demands (never a common symbol for a thread-local or initialised object) under -fcommon and -fno-common; '
+             'gvar_initializer installs init_data and leaves the flags alone; every writer of is_tentative is evaluated by a rule', floor=28)
     u = pe.u
     _need(u, PU, 'new_gvar', 'new_anon_gvar', 'new_string_literal', 'declaration')
     ag = Agg(rep, 'R15.6', PU, 'new_anon_gvar')
@@ -2107,7 +2109,7 @@ def run(P, rep, tier):
     rep.explanation = ('Decision tables of the symbol-emission code, obtained by abstract interpretation (Engine I) of chibicc\'s own source on complete finite input '
                        'domains and compared with oracle tables: emit_data / emit_text / gen_addr(ND_VAR) for every combination of the linkage and storage flags of an Obj '
                        'and of -fcommon / -fPIC (emitted directives are parsed and the address left in %rax is evaluated symbolically); function(), primary(), '
-                       'global_variable(), declaration() for every combination of declaration attributes (function(): also for every state an earlier declaration can have left, '
+                       'global_variable(), declaration(), postfix() (compound literals), gvar_initializer() for every combination of declaration attributes (a parser-built state outside the emit_data table is run through emit_data; function(): also for every state an earlier declaration can have left, '
                        'judging that a redeclaration keeps the linkage of the first declaration, and find_func on scope chains of depth 1-3 for every flag combination of the bound function); mark_live on all reference graphs over three functions; '
                        'scan_globals on all lists of up to three file-scope objects over two names; parse_args / run_linker on concrete option vectors. '
                        'Not decided: link results, run-time equivalence of the configurations, initialiser bytes (C05), prologue/epilogue (C06), the one redeclaration case the Obj flags '
